@@ -15,6 +15,7 @@ import (
 	sdk "github.com/cosmos/cosmos-sdk/types"
 	banktypes "github.com/cosmos/cosmos-sdk/x/bank/types"
 	"github.com/ethereum/go-ethereum/common"
+	"github.com/ethereum/go-ethereum/core/vm"
 
 	"github.com/functionx/fx-core/v8/contract"
 	fxtypes "github.com/functionx/fx-core/v8/types"
@@ -35,6 +36,7 @@ const (
 	uBase  = 100 // users 100..
 	cOK    = 200 // contract whose code is STOP
 	cBad   = 201 // contract that always reverts
+	cRe    = 202 // re-entrant receiver: its callback calls the precompile's executeClaim(chain, nonce of the claim being executed)
 	tokAcct = 210 // 210+t: the ERC-20 contract of token t (t >= 1) as an account
 )
 
@@ -61,6 +63,8 @@ type World struct {
 	blockH int64
 	disabledTok map[int]bool
 	ibcSeq      uint64
+	// deposits that were observed but deliberately not executed yet (the pending-execute record must keep them executable)
+	parked []Op
 	// batches the external chain may still execute, as the protocol sees it (independent of the fxcore store):
 	// requested, not executed, not superseded by an executed higher-nonce batch of the SAME token, not timed out
 	liveBatch []liveBatch
@@ -258,8 +262,10 @@ func NewWorld(c *lib.Chain, sp Spec, hseed int64) *World {
 	badAddr := common.HexToAddress("0xc0000000000000000000000000000000000000c9")
 	c.InstallCode(c.Ctx, okAddr, okCode)
 	c.InstallCode(c.Ctx, badAddr, badCode)
-	w.addr[cOK], w.addr[cBad] = okAddr.Bytes(), badAddr.Bytes()
-	w.Accts = append(w.Accts, cOK, cBad)
+	reAddr := common.HexToAddress("0xc0000000000000000000000000000000000000ca")
+	c.InstallCode(c.Ctx, reAddr, okCode) // re-armed for a specific claim by armReentrant
+	w.addr[cOK], w.addr[cBad], w.addr[cRe] = okAddr.Bytes(), badAddr.Bytes(), reAddr.Bytes()
+	w.Accts = append(w.Accts, cOK, cBad, cRe)
 	for t, tk := range w.Toks { // the pair contracts themselves can be named as receivers (not blocked addresses)
 		if t > 0 {
 			w.addr[tokAcct+t] = tk.ERC20.Bytes()
@@ -337,6 +343,52 @@ func (w *World) observe(c int, h uint64, mk func(n uint64, h uint64) crosschaint
 
 func (w *World) execute(c int, n uint64) error {
 	return w.try(func(ctx sdk.Context) error { return w.xs(c).Keeper.ExecuteClaim(ctx, n) })
+}
+
+// armReentrant gives the receiver contract cRe the runtime code (hand assembled, no solc in the sandbox)
+//     if (token.balanceOf(this) >= bound) return;
+//     crosschainPrecompile.call(executeClaim(chain, nonce));       // result ignored
+// for the inbound bridge call with event nonce `nonce` carrying toks.  bound = the contract's current ERC-20 balance of
+// the first token with a positive amount + twice that amount: the callback of the first execution (balance + amount)
+// re-enters, the callback of a nested execution (if the application ever lets one happen) does not — the recursion is
+// bounded whatever the application does.  On the unchanged application the nested executeClaim is refused ("claim not
+// found": the pending record is deleted before the handler runs), the refusal is swallowed and the callback succeeds.
+func (w *World) armReentrant(c int, nonce uint64, toks [][2]int64) {
+	code := okCode
+	for _, p := range toks {
+		tk := w.Toks[p[0]]
+		if p[1] <= 0 || tk.Alias(chainName(c)) == nil {
+			continue
+		}
+		input, err := precompile.NewExecuteClaimMethod(nil).PackInput(crosschaintypes.ExecuteClaimArgs{Chain: chainName(c), EventNonce: new(big.Int).SetUint64(nonce)})
+		lib.Must(err)
+		bound := new(big.Int).Add(w.C.ERC20BalanceOf(w.C.Ctx, tk.ERC20, w.Hex(cRe)), big.NewInt(2*p[1]))
+		balanceOf := append([]byte{0x70, 0xa0, 0x82, 0x31}, common.LeftPadBytes(w.Hex(cRe).Bytes(), 32)...)
+		a := &lib.Asm{}
+		a.StoreMem(0, balanceOf)
+		a.PushU(32).PushU(0).PushU(36).PushU(0).PushAddr(tk.ERC20).Op(vm.GAS, vm.STATICCALL, vm.POP)
+		a.Push(bound.Bytes()).PushU(0).Op(vm.MLOAD, vm.LT) // balance < bound
+		dest := len(a.B) + 3 + 1 + 1
+		a.B = append(a.B, byte(vm.PUSH2), byte(dest>>8), byte(dest))
+		a.Op(vm.JUMPI, vm.STOP, vm.JUMPDEST)
+		a.Call(lib.CALL, crosschaintypes.GetAddress(), 0, nil, input).Ignore().Stop()
+		code = a.B
+		break
+	}
+	w.C.InstallCode(w.C.Ctx, w.Hex(cRe), code)
+}
+
+var errProbe = errors.New("probe: executed once more")
+
+// executableAgain: would the claim with event nonce n execute (once more)?  Runs on a branch that is always discarded.
+func (w *World) executableAgain(c int, n uint64) bool {
+	err := w.try(func(ctx sdk.Context) error {
+		if e := w.xs(c).Keeper.ExecuteClaim(ctx, n); e != nil {
+			return e
+		}
+		return errProbe
+	})
+	return err == errProbe
 }
 
 // ---------------- EVM transactions from an EOA ----------------
